@@ -147,6 +147,18 @@ func (e *Engine) runReplayData(r *Replayer, data map[string]interface{}) map[str
 }
 
 func init() {
+	// C08: a liquidation that fails after the pool total was written (the reward payout fails);
+	// fixed scenario, no model values needed
+	for _, fn := range []string{"CheckAndLiquidateUnhealthyPosition", "CheckAndCloseAtStopLoss"} {
+		registerReplay(&Replayer{
+			Obligation: "x/leveragelp/keeper.(Keeper)." + fn + "/ensures:C08/*",
+			Template:   "C08_failed_liquidation.go.tmpl", PkgDir: "x/leveragelp/keeper", TestName: "TestKeeperSuite/TestVerifReplayC08FailedLiquidationLeavesBooksApart",
+			Marker: "C08 violated on the real code",
+			Data: func(m map[string]string, goal string) (map[string]interface{}, error) {
+				return map[string]interface{}{"Pending": "1000000"}, nil
+			},
+		})
+	}
 	// C20: one large limit-open order whose own borrow takes pool health below the open
 	// threshold: perpetual.Open fails after moving the collateral (fixed scenario with default
 	// params, found by a sub-agent on the real code; no model values needed).
